@@ -810,17 +810,25 @@ impl<'a> VisitMut for Norm<'a> {
             // ghost-text anchors: `//@ before <statement prefix>` (proof blocks only; checked by the template scan)
             if !self.before.is_empty() {
                 let t: String = s.to_token_stream().to_string().chars().filter(|c| !c.is_whitespace()).collect();
+                // sections that share one prefix are matched in order: the j-th of them to the j-th matching statement
+                let mut taken: Vec<String> = vec![];
                 for (k, pfx) in self.before.clone().iter().enumerate() {
+                    let shared = self.before.iter().filter(|p| *p == pfx).count() > 1;
+                    if shared && (self.before_hits[k] > 0 || taken.contains(pfx)) {
+                        continue;
+                    }
                     if let Some(apfx) = pfx.strip_prefix("AFTER:") {
                         if t.starts_with(apfx) {
                             let m = ident(&format!("__zx_before_{}", k));
                             pending_after.push(parse_quote!(#m!();));
                             self.before_hits[k] += 1;
+                            taken.push(pfx.clone());
                         }
                     } else if t.starts_with(pfx.as_str()) {
                         let m = ident(&format!("__zx_before_{}", k));
                         new.push(parse_quote!(#m!();));
                         self.before_hits[k] += 1;
+                        taken.push(pfx.clone());
                     }
                 }
             }
